@@ -26,7 +26,7 @@ DEFAULTS = {
     'rateAlwaysCmp': 'ge', 'drawKeepCmp': 'le', 'fileAboveCmp': 'gt', 'windowStartCmp': 'le', 'windowEndCmp': 'le',
     'opOutputAlias': '_tape_recorder_operation', 'aboveLimitContent': 'above interception limit', 'defaultFileLimit': 500,
     's3RateAlwaysCmp': 'ge', 's3DrawKeepCmp': 'le', 'disableDiscards': True, 'fileStemSplitext': True,
-    'operatorCatchesTypeError': True, 'patternGuardsNonString': True,
+    'operatorCatchesTypeError': True, 'patternGuardsNonString': True, 'workerOwnsQueues': True,
     's3FullKey': 'tape_recorder_recordings/{key_prefix}full/{id}', 's3MetadataKey': 'tape_recorder_recordings/{key_prefix}metadata/{id}',
 }
 
@@ -294,6 +294,22 @@ def extract(repo):
     except Exception:
         pass
     put('disableDiscards', dd)
+    # -- equalizer.py `_create_new_player_process`: does every worker get queues of its own? (F9) ---------------------
+    woq = None
+    try:
+        fn = find_func(parse(repo, 'playback/studio/equalizer.py'), '_create_new_player_process')
+        made = set()
+        for n in ast.walk(fn):
+            if isinstance(n, ast.Assign) and isinstance(n.value, ast.Call) and is_attr(n.value.func, 'Queue'):
+                for t in n.targets:
+                    if isinstance(t, ast.Attribute):
+                        made.add(t.attr)
+        starts = any(isinstance(n, ast.Call) and is_attr(n.func, 'Process') for n in ast.walk(fn))
+        if starts:
+            woq = {'_compare_tasks', '_compare_results'} <= made
+    except Exception:
+        pass
+    put('workerOwnsQueues', woq)
     # -- file_based_tape_cassette.py `iter_recording_ids`: how the recording id is cut out of a listed file name (F14) --
     fs = None
     try:
@@ -377,6 +393,8 @@ def s3DrawKeepCmp : Cmp := .%s
 def operatorCatchesTypeError : Bool := %s
 /-- tape_cassette.py `_match_metadata_value`: a string filter is matched as `isinstance(recorded_value, str) and fnmatch(…)` (F8) -/
 def patternGuardsNonString : Bool := %s
+/-- equalizer.py `_create_new_player_process` makes a task queue and a result queue for every worker it starts (F9) -/
+def workerOwnsQueues : Bool := %s
 /-- tape_recorder.py `disable_recording`: after switching off it calls `self.discard_recording()` (F15) -/
 def disableDiscards : Bool := %s
 /-- file_based_tape_cassette.py `iter_recording_ids`: `os.path.splitext(file_name)[0]` (true, F14) or `file_name.split('.')[0]` -/
@@ -392,6 +410,7 @@ end PlaybackModel.Source
        ', '.join(str(b) for b in atoms['aboveLimitContent'].encode('utf-8')), atoms['defaultFileLimit'],
        atoms['s3RateAlwaysCmp'], atoms['s3DrawKeepCmp'],
        'true' if atoms['operatorCatchesTypeError'] else 'false', 'true' if atoms['patternGuardsNonString'] else 'false',
+       'true' if atoms['workerOwnsQueues'] else 'false',
        'true' if atoms['disableDiscards'] else 'false', 'true' if atoms['fileStemSplitext'] else 'false',
        lean_str(atoms['s3FullKey']), lean_str(atoms['s3MetadataKey']))
 
